@@ -86,3 +86,117 @@ pub fn c05_isolation(s: Shape) {
         e.exit();
     }
 }
+
+use sentinel_core::hotspot;
+use std::collections::HashMap;
+
+fn val_name(i: usize) -> String {
+    crate::util::name("v", i)
+}
+
+/// shape: p0 = parameter mode (0: index 0, 1: index -1, 2: key "k", 3: index 5 = missing, 4: index -4 = missing),
+/// p1 = distinct values (1..3), p2 = 1 if value 0 has an override, p3 = op count
+pub fn c05_hotspot(s: Shape) {
+    let mode = s.p[0];
+    let nv = s.p[1] as usize;
+    let has_override = s.p[2] != 0;
+    let ops = s.p[3] as usize;
+    let res = String::from("c05-hot");
+    clock::arm(T0 * 1_000_000);
+    let thr = vrt::any_u64("thr", 1, 2);
+    let ovr = if has_override { vrt::any_u64("override", 1, 3) } else { 0 };
+    let mut specific: HashMap<String, u64> = HashMap::new();
+    if has_override {
+        specific.insert(val_name(0), ovr);
+    }
+    let rule = Arc::new(hotspot::Rule {
+        id: "h0".into(),
+        resource: res.clone(),
+        metric_type: hotspot::MetricType::Concurrency,
+        control_strategy: hotspot::ControlStrategy::Reject,
+        param_index: match mode {
+            0 => 0,
+            1 => -1,
+            3 => 5,
+            4 => -4,
+            _ => 0,
+        },
+        param_key: if mode == 2 { "k".into() } else { String::new() },
+        threshold: thr,
+        specific_items: specific,
+        ..Default::default()
+    });
+    hotspot::load_rules(crate::util::vec1(rule.clone()));
+    let rec = Recorder::new(9000);
+    let chain = if s.p[7] == 1 {
+        slot_chain_with(rec.clone())
+    } else {
+        use sentinel_core::verif::slots;
+        sentinel_core::verif::slot_chain_of(slots::HOTSPOT | slots::STAT_HOTSPOT, Some(rec.clone()))
+    };
+    let missing = mode == 3 || mode == 4;
+    let mut open: Vec<(EntryStrongPtr, usize)> = Vec::new();
+    let mut inflight = [0u64; 3];
+    for _ in 0..ops {
+        let do_exit = !open.is_empty() && vrt::any_bool("exit");
+        if do_exit {
+            let idx = if open.len() > 1 && vrt::any_bool("last") { open.len() - 1 } else { 0 };
+            let (e, v) = open.remove(idx);
+            e.exit();
+            if !missing {
+                inflight[v] -= 1;
+            }
+            continue;
+        }
+        let v = vrt::any_usize("value", 0, nv - 1);
+        let n = vrt::any_u32("batch", 1, 2);
+        let cap = if has_override && v == 0 { ovr } else { thr };
+        let mut b = EntryBuilder::new(res.clone())
+            .with_resource_type(ResourceType::Common)
+            .with_traffic_type(TrafficType::Outbound)
+            .with_batch_count(n)
+            .with_slot_chain(chain.clone());
+        if mode == 2 {
+            let mut m: HashMap<String, String> = HashMap::new();
+            m.insert("k".into(), val_name(v));
+            m.insert("other".into(), "x".into());
+            b = b.with_attachments(Some(m));
+        } else {
+            let mut a: Vec<String> = Vec::new();
+            if mode == 1 {
+                a.push("first".into());
+                a.push(val_name(v));
+            } else {
+                a.push(val_name(v));
+                a.push("second".into());
+            }
+            b = b.with_args(Some(a));
+        }
+        let blocks_before = rec.blocks.load(Ordering::SeqCst);
+        match b.build() {
+            Ok(e) => {
+                vrt::cover("admitted");
+                vrt::check(missing | (inflight[v] + 1 <= cap), "C05h:admitted-over-cap");
+                if !missing {
+                    inflight[v] += 1;
+                    vrt::check(inflight[v] <= cap, "C05h:inflight-over-cap");
+                }
+                open.push((e, v));
+            }
+            Err(_) => {
+                vrt::cover("rejected");
+                vrt::check(!missing, "C05h:rule-applied-without-parameter");
+                vrt::check(!(inflight[v] + n as u64 <= cap), "C05h:rejected-under-cap");
+                vrt::check(rec.blocks.load(Ordering::SeqCst) == blocks_before + 1, "C05h:block-notified-once");
+                vrt::check(rec.last_block.load(Ordering::SeqCst) == 5, "C05h:block-type-hotspot");
+                vrt::check(same_rule(&rec, &rule), "C05h:triggering-rule");
+            }
+        }
+    }
+    for (e, v) in open {
+        e.exit();
+        if !missing {
+            inflight[v] -= 1;
+        }
+    }
+}
